@@ -80,6 +80,10 @@ func conformFor(prop string, sc *Scenario, out **ConformResult, hook func(h uint
 	}
 	mine := res.For(prop)
 	if len(mine) == 0 {
+		if !res.Sync.OK(sc.Chain.Tip) && prop == "C03" && strings.Contains(res.Sync.String(), "insufficient balance") {
+			// the storage-level overdraft guard fired inside a batch that the funds checks let through
+			return "a batch passed the funds checks but overdrew its balance when applied; the block fails for ever: " + res.Sync.String()
+		}
 		if !res.Sync.OK(sc.Chain.Tip) && prop != "C08" {
 			if os.Getenv("VERIF_DBG") != "" {
 				SaveCase("DEV", sc)
